@@ -112,7 +112,7 @@ class Ctx:
     def case_path(self, tag):
         return os.path.join(self.scratch, "cases_%s_%d.ndjson" % (tag, len(self.tlc_runs)))
 
-    def replay(self, family, cases, rule=None):
+    def replay(self, family, cases, rule=None, env=None):
         """`cases`: a list of JSON values, or the path of an ndjson file written by TLC (case_file=)."""
         if isinstance(cases, str):
             cpath = cases
@@ -127,7 +127,8 @@ class Ctx:
                     fh.write(json.dumps(c, separators=(",", ":")) + "\n")
         rpath = cpath + ".report.json"
         p = subprocess.run([VH, "replay", family, cpath, rpath], stdout=subprocess.PIPE,
-                           stderr=subprocess.STDOUT, text=True, timeout=3600)
+                           stderr=subprocess.STDOUT, text=True, timeout=3600,
+                           env=dict(os.environ, VERIF_SEED=str(self.seed), **(env or {})))
         if p.returncode != 0 or not os.path.exists(rpath):
             raise Machinery("harness replay %s failed (rc=%s):\n%s" % (family, p.returncode, p.stdout[-3000:]))
         rep = json.load(open(rpath))
@@ -163,7 +164,8 @@ class Ctx:
     def drive(self, family, n, seed_offset=0):
         tpath = os.path.join(self.scratch, "trace_%s_%d.ndjson" % (family, seed_offset))
         p = subprocess.run([VH, "drive", family, str(self.seed * 1000 + seed_offset), str(n), tpath],
-                           stdout=subprocess.PIPE, stderr=subprocess.STDOUT, text=True, timeout=3600)
+                           stdout=subprocess.PIPE, stderr=subprocess.STDOUT, text=True, timeout=3600,
+                           env=dict(os.environ, VERIF_SEED=str(self.seed)))
         if p.returncode != 0:
             raise Machinery("harness drive %s failed (rc=%s):\n%s" % (family, p.returncode, p.stdout[-3000:]))
         return open(tpath).read()
@@ -397,6 +399,29 @@ def check_C16(tier):
     return c.finish()
 
 
+def check_envelope(pid):
+    def run(tier):
+        c = Ctx(pid, tier)
+        q = tier == "quick"
+        for malg, same in (("alg1", "1"), ("alg2", "0")):
+            cp = c.case_path(pid + malg)
+            c.mc("Envelope", "MC_C06.cfg", dict(MAlg=malg, MaxOps=2, Deviations="{}", Emit="Emit"), timeout=1500, case_file=cp,
+                 label="decode pipeline vs SigGenuine / WellFormed, adversary key of %s algorithm" %
+                       ("the same" if same == "1" else "another"))
+            c.replay("envelope:" + pid, cp, env=dict(VERIF_MALG_SAME=same),
+                     rule="an honest seal (delegation, invocation) followed by <=2 adversary actions (+ closing re-signature): field "
+                          "rewrites per class, issuer swap, re-signature, header/tag/extra-entry/outer-shape/signature edits; decoded by "
+                          "every generic/typed decoder on DAG-CBOR and DAG-JSON; non-trivial = the property forbids acceptance")
+            if q:
+                break
+        c.mc("Envelope", "MC_C06.cfg", dict(MAlg="alg1", MaxOps=2, Deviations='{"TimeU64Wraps"}', Emit=""),
+             expect_violation=["Unforgeable"], label="sensitivity: TimeU64Wraps")
+        c.mc("Envelope", "MC_C06.cfg", dict(MAlg="alg2", MaxOps=1, Deviations='{"EmptySigSkipsVerify"}', Emit=""),
+             expect_violation=["Unforgeable", "NoForgeryOfHonest"], label="sensitivity: EmptySigSkipsVerify")
+        return c.finish()
+    return run
+
+
 CHAIN = {
     "C01": dict(q="MC_C01_q.cfg", t=["MC_C01_t.cfg", "MC_C01_t4.cfg"], dev='{"AudAsSubject"}',
                 rule="every invocation x proof list over principals {A,B,M}(+C), links over all principals, Undef subject and "
@@ -443,7 +468,7 @@ def check_chain(pid):
     return run
 
 
-CHECKS = {"C13": check_C13, "C15": check_C15, "C12": check_C12, "C14": check_C14, "C11": check_C11, "C16": check_C16}
+CHECKS = {"C13": check_C13, "C15": check_C15, "C12": check_C12, "C14": check_C14, "C11": check_C11, "C16": check_C16, "C06": check_envelope("C06"), "C10": check_envelope("C10")}
 for _p in CHAIN:
     CHECKS[_p] = check_chain(_p)
 
